@@ -44,16 +44,16 @@ Lemma api_step_tq : forall cfg s o, topen (fst (api_step cfg s o)) = topen s /\ 
 Proof.
   intros cfg s o. destruct o; try (split; reflexivity); unfold api_step.
   - destruct (negb (transport s)); [split; reflexivity|]. unfold new_request. cbv zeta beta iota.
-    destruct (send cfg _ _) as [o1 ok]. destruct ok; split; reflexivity.
+    destruct (send_req cfg _ _) as [o1 ok]. destruct ok; split; reflexivity.
   - destruct (negb (transport s)); [split; reflexivity|]. destruct (po_wants_ack o); unfold new_request, new_id_only; cbv zeta beta iota;
-      destruct (send cfg _ _) as [o1 ok]; destruct ok; split; reflexivity.
+      destruct (send_req cfg _ _) as [o1 ok]; destruct ok; split; reflexivity.
   - destruct (negb (transport s)); [split; reflexivity|]. unfold new_request. cbv zeta beta iota.
-    destruct (send cfg _ _) as [o1 ok]. split; reflexivity.
+    destruct (send_req cfg _ _) as [o1 ok]. split; reflexivity.
   - destruct (negb (transport s)); [split; reflexivity|]. unfold new_request. cbv zeta beta iota.
-    destruct (send cfg _ _) as [o1 ok]. split; reflexivity.
+    destruct (send_req cfg _ _) as [o1 ok]. split; reflexivity.
   - destruct (reg_id_of s h) as [regid|]; [|split; reflexivity]. destruct (assoc regid (regs s)) as [h'|]; [|split; reflexivity].
     destruct (negb (h' =? h)); [split; reflexivity|]. destruct (negb (transport s)); [split; reflexivity|].
-    unfold new_request. cbv zeta beta iota. destruct (send cfg _ _) as [o1 ok]. split; reflexivity.
+    unfold new_request. cbv zeta beta iota. destruct (send_req cfg _ _) as [o1 ok]. split; reflexivity.
 Qed.
 
 Lemma react_tq : forall cfg s f, topen (fst (react cfg s f)) = topen s /\ queue (fst (react cfg s f)) = queue s.
@@ -116,18 +116,24 @@ Proof.
     eapply QQ_from; [| |apply QQ_yield]; reflexivity.
 Qed.
 
+Lemma QQ_unsub_step : forall fl cfg s h, QQ fl s (fst (unsub_step fl cfg s h)).
+Proof.
+  intros fl cfg s h. unfold unsub_step.
+  destruct (sub_id_of s h) as [subid|]; [|apply QQ_refl]. destruct (negb (memN h _)); [apply QQ_refl|].
+  destruct (negb (transport s)); [apply QQ_refl|].
+  destruct (remove1 h match assoc subid (subs s) with Some l => l | None => [] end) as [|x rest'].
+  + unfold new_request. cbv zeta beta iota. destruct (send_req cfg _ _) as [o1 ok]. apply QQ_same; reflexivity.
+  + match goal with |- context [complete fl cfg ?S ?F ?R] =>
+      pose proof (QQ_complete fl cfg S F R) as Hc; destruct (complete fl cfg S F R) as [s2 o2] end.
+    simpl in *. eapply QQ_from; [| |exact Hc]; reflexivity.
+Qed.
+
 Lemma QQ_api : forall fl cfg s o, is_quiet_api o = true -> QQ fl s (fst (step fl cfg s o)).
 Proof.
   intros fl cfg s o Hq.
   assert (Hapi : QQ fl s (fst (api_step cfg s o))) by (destruct (api_step_tq cfg s o); now apply QQ_same).
   destruct o; try discriminate; clear Hq; try exact Hapi; clear Hapi; unfold step; cbv beta iota.
-  - destruct (sub_id_of s h) as [subid|]; [|apply QQ_refl]. destruct (negb (memN h _)); [apply QQ_refl|].
-    destruct (negb (transport s)); [apply QQ_refl|].
-    destruct (remove1 h match assoc subid (subs s) with Some l => l | None => [] end) as [|x rest'].
-    + unfold new_request. cbv zeta beta iota. destruct (send cfg _ _) as [o1 ok]. apply QQ_same; reflexivity.
-    + match goal with |- context [complete fl cfg ?S ?F ?R] =>
-        pose proof (QQ_complete fl cfg S F R) as Hc; destruct (complete fl cfg S F R) as [s2 o2] end.
-      simpl in *. eapply QQ_from; [| |exact Hc]; reflexivity.
+  - apply QQ_unsub_step.
   - destruct (is_done s f); [apply QQ_refl|]. destruct (assoc f (issued s)) as [[k id]|]; [|apply QQ_refl].
     destruct fl.
     + assert (Hc : QQ Tx s (fst (let '(s1, o2) := complete Tx cfg s f (RErr ECancelled) in (s1, o2 ++ [ApiReturned None])))).
@@ -139,6 +145,16 @@ Proof.
         try (exists [TLeaf (LUserDone f (RErr ECancelled))]; split; [reflexivity | repeat constructor]).
       exists [TLeaf (LCancelSend id); TLeaf (LUserDone f (RErr ECancelled))]. split; [|repeat constructor].
       unfold enqueue. simpl. rewrite <- app_assoc. reflexivity.
+  - destruct (is_fail_op o); [|apply QQ_refl].
+    assert (H1 : QQ fl s (fst (match o with AUnsubscribe h => unsub_step fl cfg (set_failnext s (Some e)) h
+                               | _ => api_step cfg (set_failnext s (Some e)) o end))).
+    { eapply QQ_from with (s0 := set_failnext s (Some e)); [reflexivity | reflexivity |].
+      destruct o; try (destruct (api_step_tq cfg (set_failnext s (Some e)) o) as [A B]; apply QQ_same; [exact A | exact B]);
+        try (match goal with |- context [api_step cfg ?S ?O] => destruct (api_step_tq cfg S O) as [A B]; apply QQ_same; [exact A | exact B] end).
+      apply QQ_unsub_step. }
+    destruct (match o with AUnsubscribe h => unsub_step fl cfg (set_failnext s (Some e)) h
+              | _ => api_step cfg (set_failnext s (Some e)) o end) as [s1 o1]. simpl in *.
+    eapply QQ_trans; [exact H1 | apply QQ_same; reflexivity].
   - destruct (is_react_op o && negb (is_done s f) && isNoneB (assoc f (reacts s))); apply QQ_same; reflexivity.
 Qed.
 
@@ -262,7 +278,7 @@ Qed.
 (* ---- the transport-open flag, exactly (Twisted) ---- *)
 Definition spec_topen (cfg : ucfg) (s : sess) (o : op) : bool :=
   match o with
-  | OOpen => if opened s then topen s else true
+  | OOpen => if transport s then topen s else true
   | OLost _ => if transport s then false else topen s
   | ADisconnect => if transport s then false else topen s
   | RAbort _ => if transport s && isNone (sid s) && u_leave_super cfg then false else topen s
@@ -286,7 +302,7 @@ Proof.
                   assert (Hng : forall r, O <> RGoodbye r) by (intros r E; discriminate);
                   destruct (QQ_established Tx cfg s O Hng) as [A _]; rewrite A; reflexivity end ].
   - (* OOpen *)
-    unfold step. simpl. destruct (opened s); [reflexivity|]. simpl.
+    unfold step. simpl. destruct (transport s); [reflexivity|]. simpl.
     destruct (u_connect cfg); [|reflexivity]. unfold sid_truthy. simpl. fold (sid_truthy s). destruct (sid_truthy s); [reflexivity|]. simpl.
     unfold send. simpl. reflexivity.
   - (* OLost *)
@@ -354,6 +370,29 @@ Proof.
 Qed.
 
 (* ---- asyncio, settled: one event followed by two loop iterations ---- *)
+(* every life can be left: whatever happened before, an object that has no transport and no session id, is connected
+   (its onConnect joins), is welcomed by the router and then calls leave(), sends GOODBYE *)
+Theorem tx_leave_in_every_life : forall cfg s v r, transport s = false -> sid s = None ->
+  u_connect cfg = CnJoin -> u_welcome cfg = WlNone -> v <> 0 ->
+  levs (concat (snd (run Tx cfg s [OOpen; RWelcome v; ALeave r]))) = [LvConnect; LvJoin; LvGoodbye].
+Proof.
+  intros cfg s v r Ht Hs Hc Hw Hv. cbn [run].
+  destruct (tx_step_spec cfg s OOpen) as [A1 B1]. pose proof (tx_step_topen cfg s OOpen) as C1.
+  destruct (step Tx cfg s OOpen) as [s1 o1]. simpl in A1, B1, C1.
+  destruct (tx_step_spec cfg s1 (RWelcome v)) as [A2 B2]. pose proof (tx_step_topen cfg s1 (RWelcome v)) as C2.
+  destruct (step Tx cfg s1 (RWelcome v)) as [s2 o2]. simpl in A2, B2, C2.
+  destruct (tx_step_spec cfg s2 (ALeave r)) as [A3 _]. destruct (step Tx cfg s2 (ALeave r)) as [s3 o3]. simpl in A3.
+  cbn [fst snd concat]. rewrite app_nil_r, !levs_app, A1, A2, A3. clear A1 A2 A3.
+  rewrite Ht in *. rewrite Hc in B1. unfold sid_truthy in B1. rewrite Hs in B1. unfold lcore in B1, B2.
+  pose proof (f_equal (fun c => snd (fst (fst c))) B1) as E2. pose proof (f_equal (fun c => snd (fst c)) B1) as E3.
+  pose proof (f_equal snd B1) as E4. cbn [fst snd] in E2, E3, E4. clear B1.
+  unfold isNone in *. rewrite E2, E3, Hw in *. cbn [andb] in *.
+  pose proof (f_equal (fun c => snd (fst (fst c))) B2) as F2. pose proof (f_equal (fun c => snd (fst c)) B2) as F3.
+  pose proof (f_equal snd B2) as F4. cbn [fst snd] in F2, F3, F4. clear B2.
+  unfold sid_truthy. rewrite F3, F4, E4, F2, C2, C1.
+  destruct (v =? 0) eqn:Ev; [apply N.eqb_eq in Ev; contradiction|]. reflexivity.
+Qed.
+
 Definition turn2 (cfg : ucfg) (s1 : sess) : sess * list out :=
   let '(s2, o2) := step Aio cfg s1 OTurn in
   let '(s3, o3) := step Aio cfg s2 OTurn in (s3, o2 ++ o3).
@@ -485,7 +524,7 @@ Proof.
   destruct o; try discriminate; clear Eq;
     try (apply Hrq; [intros r0 E; discriminate | reflexivity | reflexivity]); clear Hrq.
   - (* OOpen *)
-    destruct (opened s) eqn:Eo.
+    destruct (transport s) eqn:Eo.
     + apply Hquiet; unfold step, spec_levs, spec_lcore, spec_topen; rewrite ?Eo; try reflexivity; [apply LQ_refl | apply QQ_refl].
     + unfold macro, turn2, step. rewrite Eo. cbn [defer]. unfold enqueue. cbn [queue set_conn set_queue]. rewrite Hq.
       cbn [app run_queue run_thunk]. unfold spec_levs, spec_lcore, spec_topen, lcore. rewrite Eo. simpl.
@@ -726,8 +765,9 @@ Proof.
 Qed.
 
 (* ... hence every Twisted trace theorem about life-cycle events holds for settled asyncio histories *)
-Theorem aio_settled_order : forall cfg ops, exists m, mrun MFresh (levs (trace Aio cfg (settle ops))) = Some m.
-Proof. intros. rewrite (proj1 (aio_settled_lifecycle cfg ops)), tx_order. eexists; reflexivity. Qed.
+Theorem aio_settled_order : forall cfg ops, lives_ok ops = true ->
+  exists m, mrun MFresh (levs (trace Aio cfg (settle ops))) = Some m.
+Proof. intros cfg ops H. rewrite (proj1 (aio_settled_lifecycle cfg ops)), (tx_order _ _ H). eexists; reflexivity. Qed.
 
 Theorem aio_settled_goodbye_once : forall cfg ops, grun false (levs (trace Aio cfg (settle ops))) <> None.
 Proof. intros. rewrite (proj1 (aio_settled_lifecycle cfg ops)). apply tx_goodbye_once. Qed.
